@@ -139,8 +139,11 @@ func (ctx *BrokerContext) Broker() {
 					// A client has already popped this snowflake and is
 					// about to send its offer: pass it on to the proxy.
 					ctx.snowflakeLock.Unlock()
+					vhook("w.claimed", snowflake.id)
 					offer := <-snowflake.offerChannel
+					vhook("w.offer", snowflake.id)
 					request.offerChannel <- offer
+					vhook("w.forwarded", snowflake.id)
 				}
 			}
 		}(request)
